@@ -13,6 +13,7 @@ import (
 
 	"github.com/pkg/errors"
 
+	"github.com/free5gc/ike/internal/verifhook"
 	"github.com/free5gc/ike/message"
 	ikeCrypto "github.com/free5gc/ike/security/IKECrypto"
 	"github.com/free5gc/ike/security/dh"
@@ -39,6 +40,7 @@ func GenerateRandomNumber() (*big.Int, error) {
 	var number *big.Int
 	var err error
 	for {
+		verifhook.At("security.randomnumber.try", 0)
 		number, err = rand.Int(rand.Reader, &randomNumberMaximum)
 		if err != nil {
 			return nil, errors.Errorf("GenerateRandomNumber(): Error occurs when generate random number: %+v", err)
